@@ -1,5 +1,5 @@
 //! Families `chunk` (C08) and `reader` (C06).
-//!   chunk : `<bs> <arena: none|used> <hex stream> { s:<k> | i }*`
+//!   chunk : `<bs> <arena: none|used|rem<k>> <hex stream> { s:<k> | i }*`   (rem<k>: k bytes of room left in the arena's chunk)
 //!   reader: `<bs|-> <max|-> <limit|-> <hex stream> { s:<k> | i }*`
 //! The schedule applies to successive reader calls (s:k = deliver at most k bytes, i = Interrupted);
 //! once it is exhausted, reads are served in full.
@@ -43,6 +43,15 @@ pub fn run_chunk(line: &str) -> Obs {
         let mut arena = owning_iovec::ByteArena::new();
         if t[1] == "used" {
             let _ = arena.read_n(&b"xyz"[..], 3, std::num::NonZeroUsize::MAX).unwrap();
+        } else if let Some(k) = t[1].strip_prefix("rem") {
+            // leave exactly k bytes of room in the arena's current chunk
+            let k: usize = k.parse().unwrap();
+            let _ = arena.read_n(&b"xyz"[..], 3, std::num::NonZeroUsize::MAX).unwrap();
+            let r = arena.remaining();
+            if r > k {
+                let _ = arena.read_n(std::io::repeat(7), r - k, std::num::NonZeroUsize::MAX).unwrap();
+            }
+            assert_eq!(arena.remaining(), k.min(r));
         }
         let mut rd = Sched { stream: &stream, off: 0, sched: t[3..].to_vec(), pos: 0 };
         let mut ch = StreamChunker::default();
